@@ -47,6 +47,8 @@ fn catalogue<B: Backend>(rng: &mut Prng, out: &mut Vec<Item>) {
     push("id.lid", lk.id().to_string());
     push("id.pid", pk.id().to_string());
     push("id.sid", sk.id().to_string());
+    push("id.pkepid", ppk.id().to_string());
+    push("id.pkesid", psk.id().to_string());
     let wk = LocalKey::<B>::random().unwrap();
     push("pie.local", lk.clone().wrap_pie(&wk).unwrap().to_string());
     push("pie.secret", sk.clone().wrap_pie(&wk).unwrap().to_string());
@@ -86,11 +88,38 @@ fn offer_all<B: Backend>(rec: &mut Recorder, items: &[Item]) -> u64 {
         emit("id.lid", try_parse::<KeyId<B::V, Local>>(s));
         emit("id.pid", try_parse::<KeyId<B::V, Public>>(s));
         emit("id.sid", try_parse::<KeyId<B::V, Secret>>(s));
+        emit("id.pkepid", try_parse::<KeyId<B::V, PkePublic>>(s));
+        emit("id.pkesid", try_parse::<KeyId<B::V, PkeSecret>>(s));
         emit("pie.local", try_parse::<PieWrappedKey<B::V, Local>>(s));
         emit("pie.secret", try_parse::<PieWrappedKey<B::V, Secret>>(s));
         emit("pw.local", try_parse::<PasswordWrappedKey<B::V, Local>>(s));
         emit("pw.secret", try_parse::<PasswordWrappedKey<B::V, Secret>>(s));
         emit("seal", try_parse::<SealedKey<B::V>>(s));
+    }
+    // the decoded body of every value of the same version, relabelled with each key kind's header and offered to
+    // the full key parser of that kind: a body of another kind's length must never pass for a key
+    let k = <B::V as paseto_core::version::Version>::PASERK_HEADER;
+    for it in items.iter().filter(|it| it.ver == B::VER) {
+        let Some(dot) = it.text[3..].find('.').map(|i| i + 4) else { continue };
+        // the base64 body (first segment after the header)
+        let hdr_end = it.text.char_indices().filter(|(_, c)| *c == '.').map(|(i, _)| i + 1).take_while(|&i| {
+            let rest = &it.text[i..];
+            !rest.is_empty() && !rest.chars().next().map(|c| c.is_ascii_lowercase() && rest.contains('.')).unwrap_or(false) || true
+        }).last().unwrap_or(dot);
+        let _ = hdr_end;
+        let body_txt = it.text.rsplit('.').next().unwrap_or("");
+        let body_txt = if it.kind.starts_with("token") { it.text.split('.').nth(2).unwrap_or("") } else { body_txt };
+        let Some(body) = crate::b64::dec(body_txt) else { continue };
+        for (dst_kind, hdr) in [("key.local", ".local."), ("key.public", ".public."), ("key.secret", ".secret.")] {
+            let text = format!("{k}{hdr}{body_txt}");
+            let r = match dst_kind {
+                "key.local" => try_parse::<Key<B::V, Local>>(&text),
+                "key.public" => try_parse::<Key<B::V, Public>>(&text),
+                _ => try_parse::<Key<B::V, Secret>>(&text),
+            };
+            rec.emit(json!({"fn":"xbody","src_be":it.be,"src_kind":it.kind,"dst_be":B::NAME,"dst_ver":B::VER,"dst_kind":dst_kind,"body_len":body.len(),"result":r,"ok":r == "ok"}));
+            n += 1;
+        }
     }
     n
 }
